@@ -141,6 +141,26 @@ class Bounds:
             if to[0] <= inner[0] and inner[1] <= to[1]:
                 return inner
             return to
+        if k == "call" and len(t[2]) == 1 and isinstance(t[1], str):
+            # lossless widening conversions: `usize::from(x_u16)`, `u64::from(x_u32)`, `x.into()` — the value, hence its range, is x's
+            import re as _re
+            m = _re.search(r"<([ui](?:8|16|32|64|128|size)) as std::convert::From<([ui](?:8|16|32|64|128|size))>>::from$", t[1])
+            if not m:
+                m2 = _re.search(r"<impl std::convert::From<([ui](?:8|16|32|64|128|size))> for ([ui](?:8|16|32|64|128|size))>::from$", t[1])
+                if m2:
+                    class _M:      # same groups, (target, source)
+                        def __init__(s_, a, b): s_.a, s_.b = a, b
+                        def group(s_, i): return s_.a if i == 1 else s_.b
+                    m = _M(m2.group(2), m2.group(1))
+            if m:
+                inner = self.interval(t[2][0], depth + 1)
+                fr = int_range(m.group(2), self.ptr_bits)
+                to = int_range(m.group(1), self.ptr_bits)
+                if inner is None:
+                    inner = fr
+                if inner is not None and to is not None and to[0] <= inner[0] and inner[1] <= to[1]:
+                    return inner
+                return to
         if k == "bin":
             op = t[1].replace("WithOverflow", "")
             a, b = self.interval(t[2], depth + 1), self.interval(t[3], depth + 1)
